@@ -147,6 +147,63 @@ def regex(rng, n):
     return out
 
 
+def field_lattice(rng, mode="f"):
+    """the literal-delimiter counterpart of regex_lattice: every subset of {-g,-p,-s,-m,-j} x {none, -r, --json}
+    x trims x bounds shapes x one- and two-byte delimiters (field mode), or the options -c / -l take"""
+    out = []
+    shapes = ["2", "1:2", "2,1", "-1", "2:", ":2,4", "3=F", "-2:-1", "1,2,1", "2,2", "x{1}y{1}", "9", "1:9=F", "-9:2"]
+    if mode == "f":
+        flags = ["-g", "-p", "-s", "-m", "-j"]
+        outs = [[], ["-r", "/"], ["--json"]]
+        trims = [[], ["-t", "l"], ["-t", "r"], ["-t", "b"]]
+        for mask in range(1 << len(flags)):
+            fs = [f for i, f in enumerate(flags) if mask >> i & 1]
+            for o in outs:
+                for t in trims:
+                    if t and rng.random() < 0.5:
+                        continue
+                    for b in rng.sample(shapes, 3):
+                        if "--json" in o and "{" in b:
+                            continue
+                        d = rng.choice(["-", "-", "--"])
+                        data = rng.choice([b"a-b-c-d-e\n", b"-a--b---c-\n\nx\n--\n", b"k-l\na-b-c-d-e-f-g\n", b"a-b", b"---\na\n"])
+                        fb = ["--fallback-oob", "G"] if rng.random() < 0.3 else []
+                        out.append(Case(["-d", d, "-f", b] + fs + o + t + fb, data))
+    else:
+        flags = {"c": ["-m", "--json", "-z"], "l": ["-m", "--no-join", "-z"]}[mode]
+        for mask in range(1 << len(flags)):
+            fs = [f for i, f in enumerate(flags) if mask >> i & 1]
+            for b in shapes:
+                if "--json" in fs and "{" in b:
+                    continue
+                eol = b"\0" if "-z" in fs else b"\n"
+                for data in ([b"ab", "éa€".encode(), b"abcde", b""] if mode == "c" else [b"l1", b"l1" + eol + b"l2" + eol + b"l3", b"a" + eol + eol + b"c" + eol + b"d" + eol + b"e" + eol]):
+                    fb = ["--fallback-oob", "G"] if rng.random() < 0.3 else []
+                    out.append(Case(["-" + mode, b] + fs + fb, (data + eol + data[:2] + eol) if mode == "c" else data))
+    return out
+
+
+def regex_lattice(rng):
+    """every subset of the options that meet on the regex path, times a few bounds shapes, on records
+    with more fields than any bound names (empty fields and runs of matches included)"""
+    import itertools
+    out = []
+    flags = ["-g", "-p", "-s", "-m", "-j"]
+    outs = [[], ["-r", "/"], ["--json"]]
+    trims = [[], ["-t", "l"], ["-t", "r"], ["-t", "b"]]
+    shapes = ["2", "1:2", "2,1", "-1", "2:", ":2,4", "3=F", "-2:-1"]
+    datas = [b"a,b;c,d;e\n", b",a,,b;;c,\n\nx\n;;\n", b"k;l\na,b,c,d,e,f,g\n", b"a;b"]
+    for mask in range(1 << len(flags)):
+        fs = [f for i, f in enumerate(flags) if mask >> i & 1]
+        for o in outs:
+            for t in trims:
+                if rng.random() < 0.5 and t:
+                    continue
+                for b in rng.sample(shapes, 3):
+                    out.append(Case(["-e", rng.choice(["[,;]", ",|;", "[,;]+"]), "-f", b] + fs + o + t, rng.choice(datas)))
+    return out
+
+
 def stream(rng, n):
     out = []
     for _ in range(n):
